@@ -43,6 +43,7 @@ DevStr(d) == (IF "excLeak" \in d THEN "+excLeak" ELSE "") \o (IF "origNested" \i
              \o (IF "litEq" \in d THEN "+litEq" ELSE "") \o (IF "dictKey" \in d THEN "+dictKey" ELSE "")
              \o (IF "serCollision" \in d THEN "+serCollision" ELSE "") \o (IF "yamlFloatStr" \in d THEN "+yamlFloatStr" ELSE "")
              \o (IF "serLenient" \in d THEN "+serLenient" ELSE "") \o (IF "jsonKeyCollision" \in d THEN "+jsonKeyCollision" ELSE "") \o (IF "leftObject" \in d THEN "+leftObject" ELSE "") \o (IF "leftSet" \in d THEN "+leftSet" ELSE "")
+             \o (IF "leftTuple" \in d THEN "+leftTuple" ELSE "") \o (IF "firstMatch" \in d THEN "+firstMatch" ELSE "")
 
 CheckParse(n) ==
   LET o   == Obs[n]
@@ -52,7 +53,7 @@ CheckParse(n) ==
       a   == AlgParse(ty, inp, NoneV)
       refOK == o.ok = Accepts(ty, inp) /\ (o.ok => (Canon(out) \in {Canon(r) : r \in TopResults(ty, inp)} /\ ConformsTop(ty, out)))
       algOK == o.ok = a.ok /\ (o.ok => Canon(out) = Canon(a.v))
-  IN /\ refOK \/ Say("parse", n, IF algOK /\ a.dev # {} THEN "ref/as-alg/" \o DevStr(a.dev) ELSE "ref/other/" \o DevStr(a.dev))
+  IN /\ refOK \/ Say("parse", n, IF algOK /\ Devs(a) # {} THEN "ref/as-alg/" \o DevStr(Devs(a)) ELSE "ref/other/" \o DevStr(a.dev))
      /\ algOK \/ Say("parse", n, "alg")
 
 \* the dumped value against the predicted representation; a set is written in no particular order
@@ -75,7 +76,7 @@ MultiBag(sp) == CASE sp.k = "bag" -> Cardinality(DOMAIN sp.v) > 1
 
 \* deviations of a re-parse that change its outcome (litEq / dictKey return the value they were given; litEq is
 \* offered as a reason only when nothing else is, see d2 below)
-Causal == {"inPlace", "excLeak", "origNested", "setListing"}
+Causal == {"inPlace", "excLeak", "origNested", "setListing", "firstMatch"}
 CheckFix(n) ==
   LET o   == Obs[n]
       ty  == T(o.t)
@@ -92,7 +93,7 @@ CheckFix(n) ==
         IF raised THEN (IF s.dev \cap cannotWrite # {} THEN "/as-alg/" \o DevStr(s.dev \cap cannotWrite) ELSE "/other")
         ELSE IF reorder(ok, s1, s2) THEN "/as-alg/+setOrder"
         ELSE IF "setListing" \in s.dev \cup rd THEN "/as-alg/+setListing"               \* a set is listed where the order shows: any outcome
-        ELSE LET d == ((s.dev \ {"leftObject", "leftSet"}) \cup rd) \ notThisFormat
+        ELSE LET d == ((s.dev \ {"leftObject"}) \cup rd) \ notThisFormat              \* (a set of lists written as !!set does not load)
                  d2 == IF s.ok THEN AlgParse(ty, back, NoneV).dev \cap {"litEq"} ELSE {}   \* lets an earlier Union member take the value
              IN IF d # {} THEN "/as-alg/" \o DevStr(d) ELSE IF d2 # {} THEN "/as-alg/" \o DevStr(d2) ELSE "/other"
   IN /\ o.vok \/ Say("fix", n, "ref/validate")                                            \* a result passes validation
